@@ -34,7 +34,7 @@ Definition counts_eqb (a b : counts) : bool :=
 Definition line_eqb (a b : line) : bool :=
   match a, b with
   | LValidation x, LValidation y => list_eqb Nat.eqb x y
-  | LAct k i s, LAct k' i' s' => akind_eqb k k' && Nat.eqb i i' && astatus_eqb s s'
+  | LAct k i s h, LAct k' i' s' h' => akind_eqb k k' && Nat.eqb i i' && astatus_eqb s s' && Bool.eqb h h'
   | LWait i s, LWait i' s' => Nat.eqb i i' && wstatus_eqb s s'
   | LStatus i s, LStatus i' s' => Nat.eqb i i' && kstatus_eqb s s'
   | LError, LError => true
@@ -55,10 +55,12 @@ Definition result_eqb (a b : result) : bool :=
    classified return value *)
 Inductive pcase := PCase (ps : bool) (es : list event) (lines : list line) (all_json : bool) (res : result).
 
-(* ---- monitor: recomputed from the events alone, without the Stats model --- *)
+(* ---- monitor: recomputed from the events alone, without the Stats model;
+   counts and the error/no-error result depend on the statuses only, never on
+   whether an actuation event carries an error --------------------------------- *)
 Definition n_act (k : akind) (st : astatus) (es : list event) : nat :=
   List.length (filter (fun e => match e with
-                                | EAct k' _ st' => akind_eqb k k' && astatus_eqb st st'
+                                | EAct k' _ st' _ => akind_eqb k k' && astatus_eqb st st'
                                 | _ => false end) es).
 Definition n_wait (st : wstatus) (es : list event) : nat :=
   List.length (filter (fun e => match e with EWait _ st' => wstatus_eqb st st' | _ => false end) es).
@@ -80,7 +82,7 @@ Definition wf_event (e : event) : bool :=
   match e with
   | EError b => b
   | EValidation [] => false
-  | EAct _ _ StPending => false
+  | EAct _ _ StPending _ => false
   | _ => true
   end.
 
@@ -106,9 +108,9 @@ Fixpoint mon_walk (ps : bool) (before es : list event) (ls : list line) : bool :
           match ls with
           | LValidation ids' :: r => list_eqb Nat.eqb ids ids' && mon_walk ps (before ++ [e]) t r
           | _ => false end
-      | EAct k i s =>
+      | EAct k i s h =>
           match ls with
-          | LAct k' i' s' :: r => akind_eqb k k' && Nat.eqb i i' && astatus_eqb s s' && mon_walk ps (before ++ [e]) t r
+          | LAct k' i' s' h' :: r => akind_eqb k k' && Nat.eqb i i' && astatus_eqb s s' && Bool.eqb h h' && mon_walk ps (before ++ [e]) t r
           | _ => false end
       | EWait i s =>
           match ls with
@@ -126,7 +128,7 @@ Fixpoint mon_walk (ps : bool) (before es : list event) (ls : list line) : bool :
 
 Definition is_fail (e : event) : bool :=
   match e with
-  | EAct _ _ StFailed | EWait _ WFailed | EWait _ WTimeout => true
+  | EAct _ _ StFailed _ | EWait _ WFailed | EWait _ WTimeout => true
   | _ => false
   end.
 
